@@ -336,9 +336,6 @@ func (v *Vue) buildStyleString(pairs []string) string {
 		key := strings.TrimSpace(pair[:colonIdx])
 		value := strings.TrimSpace(pair[colonIdx+1:])
 
-		// Remove quotes if present
-		value = strings.Trim(value, "\"'")
-
 		if value != "" {
 			// Convert camelCase to kebab-case if the key doesn't contain hyphens
 			if !strings.Contains(key, "-") {
